@@ -131,6 +131,9 @@ class Runner:
         fam = self.fam
         default = fam.default(view)
         exp = self.model.get(view, default)
+        cached = False
+        if fam.kind == F.BUNDLE and view.startswith("item:"):
+            cached = loader.item_cache.contain(fam.mkid(int(view.split(":")[1])))
         try:
             got, shape = fam.read2(loader, view)
         except BaseException as e:
@@ -160,10 +163,12 @@ class Runner:
             return
         # does the loader return an EARLIER explicitly saved content of this view (modulo the field-level deviations
         # already known)?
-        stale_kind = "stale" if fam.kind == F.BUNDLE else "stale:" + vkind
+        # a bundle loader can only serve an outdated item out of its item cache (the known defect); an outdated item
+        # that was not in the item cache before the read came from the index / a bundle: a different defect
+        stale_kind = ("stale" if cached else "stale-not-from-item-cache") if fam.kind == F.BUNDLE else "stale:" + vkind
         lost_kind = "lost" if fam.kind == F.BUNDLE else "lost:" + vkind
-        if phase == "restore" and fam.kind == F.BUNDLE and got == default:
-            # a fresh loader has no cache that could be stale: nothing comes back
+        if fam.kind == F.BUNDLE and got == default and (phase == "restore" or not cached):
+            # nothing comes back, and not out of the item cache (a fresh loader has none)
             self.disc(phase, lost_kind, "%s returns nothing, the model holds %s" % (view, _short(exp)))
             return
         for old in reversed(self.history.get(view, [])):
@@ -223,8 +228,16 @@ class Runner:
                 self.nontrivial = True
                 for ev in self.since_save[j]:
                     self.labels.add("resave-after-" + ev)
+            if fam.kind == F.BUNDLE and j in self.ever_saved:
+                b = loader.item_id_to_bundle_id.get(fam.mkid(j), -1)
+                if b >= 0 and not loader.item_cache.contain(fam.mkid(j)) and not loader.bundle_cache.contain(b):
+                    self.labels.add("resave-after-eviction")
             fam.save(loader, j, spec)
             self._printed()
+            if fam.kind == F.BUNDLE and loader.active_bundle_length > self.case["max_rows"]:
+                # docs 7-2: the active bundle is written out when it reaches config.MAX_ROWS
+                self.disc("save", "row-limit-exceeded", "%d rows are pending after save() although config.MAX_ROWS is %d" % (
+                    loader.active_bundle_length, self.case["max_rows"]))
             before = dict(self.model)
             fam.model_save(self.model, j, spec)
             for v, nf in self.model.items():
@@ -255,6 +268,13 @@ class Runner:
             got = fam.contain(loader, j)
             if got is not None and got != (j in self.ever_saved):
                 self.disc("contain", "got-%s" % got, "contain(%r) is %r, the id was %ssaved" % (fam.mkid(j), got, "" if j in self.ever_saved else "never "))
+        elif kind == "all":
+            if fam.kind == F.BUNDLE:
+                keyn = lambda k: N.scalar(list(k.to_tuple()) if hasattr(k, "to_tuple") else k)
+                got = N.sorted_any(keyn(k) for k in loader.get_all().keys())
+                exp = N.sorted_any(keyn(fam.mkid(j)) for j in self.ever_saved)
+                if got != exp:
+                    self.disc("contain", "get_all-keys", "get_all() lists %s, saved ids are %s" % (got, exp))
         elif kind == "export":
             fam.export(loader)
             self._printed()
@@ -373,7 +393,7 @@ def _diag_kind(text):
 
 
 def _phase_of(opname):
-    return {"save": "save", "get": "read", "contain": "contain", "export": "export", "index": "export",
+    return {"save": "save", "get": "read", "contain": "contain", "all": "read", "export": "export", "index": "export",
             "reopen": "export", "fault": "fault"}.get(opname, opname)
 
 
@@ -413,8 +433,10 @@ def case_strategy(fam, max_steps):
                     used.append(j)
             elif r < 72:
                 ops.append(["get", j])
-            elif r < 77:
+            elif r < 75:
                 ops.append(["contain", j])
+            elif r < 77:
+                ops.append(["all"])
             elif r < 86:
                 ops.append(["export"])
             elif r < 89:
@@ -515,6 +537,26 @@ def real_shard(arg):
 # ---------------------------------------------------------------------------------------------
 # replay / shrinking
 
+def replay_shard(path):
+    col = Collector()
+    rec = common.load_replay(path)
+    try:
+        discs = check_case(rec["case"])
+    except BaseException as e:
+        if isinstance(e, KeyboardInterrupt):
+            raise
+        col.error("replay %s crashed: %s" % (path, traceback.format_exc(limit=5)))
+        return col
+    finally:
+        if rec["case"].get("kind") == "real":
+            from harness import lianrun
+            lianrun.cleanup_scratch()
+    col.case()
+    col.label("replayed")
+    for sig, what in discs.items():
+        col.discrepancy(sig, what, rec["case"])
+    return col
+
 def check_case(case):
     """-> {sig: what} for one saved case (no Hypothesis)"""
     if case.get("kind") == "real":
@@ -579,29 +621,22 @@ def main(tier, seed, t0):
     from harness import c15_real
     col = Collector()
     # 1. committed regression inputs (minimal repros of open and of repaired defects)
-    for path in common.replay_files(ID):
-        rec = common.load_replay(path)
-        try:
-            discs = check_case(rec["case"])
-        except BaseException as e:
-            if isinstance(e, KeyboardInterrupt):
-                raise
-            col.error("replay %s crashed: %s" % (path, traceback.format_exc(limit=5)))
-            continue
-        col.case()
-        col.label("replayed")
-        for sig, what in discs.items():
-            col.discrepancy(sig, what, rec["case"])
+    col.merge(common.run_shards(replay_shard, common.replay_files(ID)))
     # 2. sampled histories per family
     if tier == "quick":
         per_family, max_steps, shards = 300, 30, 2
         real = REAL_QUICK
     else:
-        per_family, max_steps, shards = 10000, 30, 16
+        per_family, max_steps, shards = 3000, 40, 16
         real = [(n, p2, mr) for n in c15_real.PROGRAM_ORDER for p2 in (False, True) for mr in (None, 8, 50)]
+    only = [x for x in os.environ.get("C15_ONLY", "").split(",") if x]      # development aid: restrict the families
+    if only:
+        real = [r for r in real if "real" in only][:2]
     args = []
     for si in range(shards):
         for fi, fam in enumerate(F.FAMILIES):
+            if only and fam.name not in only:
+                continue
             args.append((fam.name, common.shard_seed(seed, 1000 * fi + si), per_family // shards + 1, max_steps))
     col.merge(common.run_shards(seq_shard, args))
     # 3. real items
